@@ -65,6 +65,13 @@ def want(repo, src: str, fi: FunctionInfo, at: ast.AST) -> str:
     return expander(repo).text(e, fi, at)
 
 
+def cond_want(repo, src: str, fi: FunctionInfo, at: ast.AST, truth: bool = True):
+    """canonical path fact for the test `src` written at statement `at`
+    (pushed through the same expansion as the code's own tests)"""
+    e = ast.parse(src, mode="eval").body
+    return canon_cond(expander(repo).norm_expr(e, fi, at), truth)
+
+
 def bind(call: ast.Call, params: List[str]) -> Dict[str, ast.AST]:
     """parameter name -> argument expression (positional then keywords)"""
     b: Dict[str, ast.AST] = {}
@@ -157,3 +164,71 @@ def self_attr_value_texts(repo, fi: FunctionInfo, attr: str) -> List[Tuple[ast.s
                         v = ex._tuple_elem(s.value, i, len(t.elts), fi, s, {}, 0, set())
                         out.append((s, ast.unparse(norm.canon(v, rename=False)) if v is not None else f"<{src_of(s.value)}>[{i}]"))
     return out
+
+
+def guarded_values(repo, fi: FunctionInfo, e: ast.AST, at: ast.AST, conds=frozenset(), depth: int = 0):
+    """[(branch facts, expression, statement)] for an expression whose value is
+    chosen by conditional expressions or by assignments in different branches:
+    `v = a if c else b`, `if c: v = a  else: v = b`, `if c: v, w = a, b ...`.
+    The facts are canonical path conditions (engine.guards)."""
+    ex = expander(repo)
+    if depth > 5:
+        return [(conds, e, at)]
+    if isinstance(e, ast.IfExp):
+        t = ex.norm_expr(e.test, fi, at)
+        return guarded_values(repo, fi, e.body, at, conds | frozenset(atoms(t, True)), depth + 1) + guarded_values(repo, fi, e.orelse, at, conds | frozenset(atoms(t, False)), depth + 1)
+    if isinstance(e, ast.Name) and isinstance(e.ctx, ast.Load):
+        rd = ex.rd(fi)
+        node = rd.node_of(at)
+        if node is not None:
+            ids = rd.reaching(e.id, node)
+            dns = [rd.node_by_id[i] for i in ids if i >= 0]
+            vals = []
+            ok = bool(dns) and len(dns) == len(ids)
+            for d in dns:
+                v = _assigned_value(d, e.id) if ok else None
+                if v is None:
+                    ok = False
+                    break
+                vals.append((d, v))
+            if ok:
+                out = []
+                for d, v in vals:
+                    c = conds_at(repo, fi, d.ast) if len(vals) > 1 else frozenset()
+                    out += guarded_values(repo, fi, v, d.ast, conds | c, depth + 1)
+                return out
+    return [(conds, e, at)]
+
+
+def _assigned_value(dn, name: str) -> Optional[ast.AST]:
+    a = dn.ast
+    if dn.kind != "stmt" or not isinstance(a, ast.Assign):
+        return None
+    for t in a.targets:
+        if isinstance(t, ast.Name) and t.id == name:
+            return a.value
+        if isinstance(t, (ast.Tuple, ast.List)) and isinstance(a.value, (ast.Tuple, ast.List)) and len(t.elts) == len(a.value.elts):
+            for x, v in zip(t.elts, a.value.elts):
+                if isinstance(x, ast.Name) and x.id == name:
+                    return v
+    return None
+
+
+def norm_literal_guard(conds, var_texts=("norm", "self.norm")) -> Optional[str]:
+    """the string literal a variable is known to equal (or, with two
+    alternatives {A, B}, known not to equal) under the given path facts"""
+    pos, neg = [], []
+    for t, pol in conds:
+        try:
+            c = ast.parse(t, mode="eval").body
+        except SyntaxError:
+            continue
+        if isinstance(c, ast.Compare) and len(c.ops) == 1 and isinstance(c.ops[0], ast.Eq):
+            l, r = c.left, c.comparators[0]
+            if isinstance(l, ast.Constant):
+                l, r = r, l
+            if ast.unparse(l) in var_texts and isinstance(r, ast.Constant) and isinstance(r.value, str):
+                (pos if pol else neg).append(r.value)
+    if pos:
+        return pos[0]
+    return ("!" + ",".join(sorted(neg))) if neg else None
